@@ -118,7 +118,9 @@ class Template(abc.ABC):
         if not path.is_dir():
             raise FailedToCreateTemplate(f"Template folder do not exist or is not a directory: {path}")
         
-        for entry in path.iterdir():
+        # The lookup is case-insensitive and the template added last wins: walk the directory
+        # in a fixed order so that the result does not depend on how the file system lists it.
+        for entry in sorted(path.iterdir(), key=lambda e: e.name):
             entry_path = subdir.joinpath(entry.name)
             if entry.is_dir():
                 yield from Template.fromdir(basedir, entry_path)
